@@ -16,6 +16,8 @@ RULE = ('worlds = every combination of 3 declaration chains out of a menu of '
         'can be torn down, L1 cannot (later layers are resumed in children)} x '
         '12 filter vectors (-t, --layer, level switches, -u/-f) x 5 '
         'repeat/shuffle vectors x {sequential, -j2, -j3}, plus --list-tests '
+        'for every filter x shuffle vector; plus every ordered pair of 15 layer names that are not plain identifiers (dots, regex metacharacters, blanks) x {sequential, resumed, -j2, -j3} '
+        '- '
         'for every filter x shuffle vector; oracle: executed multiset == '
         'reference selection x repeat, one process per test, own layer stack '
         'set up (C01 monitor), listing == selection per layer in execution '
@@ -61,6 +63,57 @@ def cases(tier, seed):
         for nie in (False, True):
             for fi in range(len(FILTERS)):
                 yield [w, nie, fi]
+    for a, b in itertools.permutations(HOSTILE, 2):
+        for mode in NAME_MODES:
+            yield ['names', [a, b], mode]
+
+
+# layer names that are not plain identifiers: the name travels to the child
+# through --resume-layer and is compared / matched there
+HOSTILE = ['a.b', 'a_b', 'ab', 'a', 'x[y]', 'p+q', 'L(1)', 'a|b', 'a*', 'a?b',
+           'a b', 'a$', 'a\\b', 'a.', 'a{1}']
+NAME_MODES = {'seq': (False, []), 'resumed': (True, []), 'j2': (False, ['-j2']),
+              'resumed_v': (True, ['-vv']), 'j3_layer': (False, ['-j3', '--layer', '.'])}
+
+
+def run_names_case(names, mode):
+    nie, argv = NAME_MODES[mode]
+    layers = [{'n': 'AAA', 'b': [], 'k': 'i', 'h': list(worlds.HOOKS_SD)}]
+    if nie:
+        layers[0]['f'] = {'tearDown': 'NIE'}
+    tests = [{'n': 'z0', 'l': 'AAA', 's': 'pass'}]
+    for i, nm in enumerate(names):
+        layers.append({'n': nm, 'b': [], 'k': 'i', 'h': list(worlds.HOOKS_SD)})
+        tests.append({'n': 'q%d' % i, 'l': nm, 's': 'pass'})
+        tests.append({'n': 'q%db' % i, 'l': nm, 's': 'pass'})
+    spec = {'layers': layers, 'tests': tests}
+    r = runrt.run_world(spec, argv)
+    viol = []
+    sig = {'part': 'names', 'mode': mode}
+    d = 'layer names %r, argv %s: ' % (names, argv)
+
+    def V(clause, detail):
+        viol.append({'clause': clause, 'sig': sig, 'detail': d + str(detail)})
+    if r.escaped:
+        V('run_aborted', r.escaped_tb)
+        return viol
+    ex = collections.Counter()
+    where = collections.defaultdict(set)
+    for ev in r.trace:
+        if ev[1] == 't' and ev[3] == 'body':
+            ex[ev[2]] += 1
+            where[ev[0]].add(ev[2][:2])
+    wantc = collections.Counter({t['n']: 1 for t in tests})
+    if ex != wantc:
+        V('executed_multiset', 'executed %s, expected every test once; errors %s\n%s' % (dict(ex), r.errors, r.text[-600:]))
+    for vp, ls in where.items():
+        if vp != 0 and len(ls) > 1:
+            V('child_ran_two_layers', 'child %s ran tests of layers %s' % (vp, sorted(ls)))
+    if r.failed:
+        V('verdict_failed_for_passing_world', 'failures %s errors %s\n%s' % (r.failures, r.errors, r.text[-600:]))
+    if mode != 'seq' and not r.children:
+        V('harness_no_children', '')
+    return viol
 
 
 def build(w, nie):
@@ -122,6 +175,9 @@ def parse_listing(text):
 
 
 def run_case(case):
+    if case[0] == 'names':
+        viol = run_names_case(case[1], case[2])
+        return {'evals': 1, 'nontrivial': 1, 'violations': viol, 'outcome': ('names', case[2])}
     w, nie, fi = case
     spec = build(w, nie)
     flt = FILTERS[fi]
